@@ -37,7 +37,7 @@ FLOORS = {
               'kind:Choice': 50, 'kind:LA': 50, 'kind:NLA': 50, 'kind:Named': 50, 'kind:NamedList': 50,
               'kind:Over': 50, 'kind:Const': 50, 'kind:Void': 50, 'kind:EOF': 50, 'kind:Dot': 50,
               'kind:SkipTo': 50, 'kind:Empty': 50, 'kind:Call': 50, 'kind:Tok': 50, 'kind:Pat': 50,
-              'kind:Group': 50, 'kind:Seq': 50, 'kind:AssocJoin': 20, 'textroute_cases': 100, 'sugar:include': 100, 'sugar:based_rule': 100, 'sugar:override_rule': 100, 'default_start_cases': 800},
+              'kind:Group': 50, 'kind:Seq': 50, 'kind:AssocJoin': 20, 'texts_with_unicode_spaces': 1500, 'textroute_cases': 100, 'sugar:include': 100, 'sugar:based_rule': 100, 'sugar:override_rule': 100, 'default_start_cases': 800},
     'thorough': {'accepted_unflagged': 400000, 'textroute_cases': 1000},
 }
 
@@ -202,6 +202,17 @@ def check_default_start(acc, rng, g, texts, origin):
             return
 
 
+UNICODE_SPACES = ['\t', '\r', '\xa0', '\u2028', '\u3000', '\x85', '\x1c', '\u2003', '\f', '\v', '\u1680', '\u202f']
+
+
+def unicode_spaces(rng, text):
+    """the same text with its blanks replaced by other characters the default whitespace pattern matches"""
+    if not any(c in ' \n' for c in text):
+        i = rng.randrange(len(text) + 1)
+        return text[:i] + rng.choice(UNICODE_SPACES) + text[i:]
+    return ''.join(rng.choice(UNICODE_SPACES) if c in ' \n' and rng.random() < 0.7 else c for c in text)
+
+
 def run_random(desc, acc):
     for i in range(desc['n']):
         rng = random.Random(h64('C01', desc['seed'], desc['shard'], i))
@@ -224,8 +235,13 @@ def run_random(desc, acc):
             if route == 'text':
                 acc.count('textroute_cases')
             texts = G.gen_inputs(rng, g, start, desc['inputs'])
+            if 'EOL' not in L.grammar_kinds(g):
+                # the documented default whitespace is the regex \s+ on str: every Unicode space, not only the ASCII ones
+                texts = [unicode_spaces(rng, t) if rng.random() < 0.15 else t for t in texts]
             runaway = 0
             for text in texts:
+                if any(c in UNICODE_SPACES for c in text):
+                    acc.count('texts_with_unicode_spaces')
                 t = check_case(acc, case, text, {'mode': 'random', 'shard': desc['shard'], 'i': i, 'route': route})
                 if t in ('exc:StepBudget', 'exc:RecursionError'):
                     runaway += 1
